@@ -41,6 +41,7 @@ func init() {
 		mp.add(e2PhaseFor("C06", e2Oracles{replica: true}))
 		mp.add(e1PhaseFor(cfgC06, 1600, 24000))
 		mp.add(probePhaseFor("C06"))
+		mp.add(streamPhaseFor("C06", 4, 40))
 		register(&Property{ID: "C06", Level: "exploration",
 			Rule:   "phase 1: every interleaving (exhaustive for the small scenarios named in notes, uniform seeded samples for 'big') of scripted writers at the commit protocol's lock-free yield points; the emitted commits go through the real commit.Channel (cloned) and a real commit.Log file and are replayed in emission order on two replicas; at quiescence dump(primary) == dump(channel replica) == dump(log replica); phase 2: seeded single-writer histories over all column kinds with a stream replica compared after every step; phase 3: directed probe of the recorded finding; distinct = distinct schedule traces / history hashes; every executed schedule commits at least two transactions (non-trivial)",
 			Assume: concAssume, Plan: mp.Plan, Run: mp.Run, MinEvents: map[string]int64{"schedules_executed": 500, "schedules_with_reordered_commits": 50, "replica_comparisons": 500}})
@@ -48,6 +49,7 @@ func init() {
 	{
 		mp := &multiPhase{}
 		mp.add(e2PhaseFor("C08", e2Oracles{snapshot: true}))
+		mp.add(streamPhaseFor("C08", 4, 40))
 		register(&Property{ID: "C08", Level: "exploration",
 			Rule:   "one case = 48 schedules of a scenario (2-3 scripted writers: updates, merges on shared and own cells, deletes, inserts, two-block transactions, a rolled-back transaction) + one Snapshot, interleaved at every lock-free yield point of the commit and snapshot protocols (exhaustive in thorough for 2w1b and 2w1b-3txn = 9 240 and 72 072 interleavings; uniform seeded samples otherwise); the snapshot bytes are restored and every block must equal S_b[k], the fold of the first k commits in the order they reached the logger, for some k between the last commit acknowledged before Snapshot was called and the number applied before it returned; distinct = distinct schedule traces",
 			Assume: concAssume, Plan: mp.Plan, Run: mp.Run, MinEvents: map[string]int64{"schedules_executed": 1000, "snapshots_overlapping_commits": 200}})
@@ -55,6 +57,8 @@ func init() {
 	{
 		mp := &multiPhase{}
 		mp.add(e2PhaseFor("C09", e2Oracles{merges: true, replica: true}))
+		mp.add(racePlan(40, 800), func(w *W, idx int) { mergeLinRound(w, idx) })
+		mp.add(streamPhaseFor("C09", 4, 40))
 		register(&Property{ID: "C09", Level: "exploration",
 			Rule:   "one case = 48 schedules of 2-3 scripted writers merging into the same rows (additive int64/float64 with distinct bits, order-sensitive v*3+d, string concatenation) mixed with overwrites, in one and two blocks, some beside a snapshot; after all writers joined every block must equal the fold of all commits in the order they reached the logger, and the replicas fed the rewritten (absolute) values must equal the primary; distinct = distinct schedule traces",
 			Assume: concAssume, Plan: mp.Plan, Run: mp.Run, MinEvents: map[string]int64{"schedules_executed": 500, "schedules_with_reordered_commits": 50}})
@@ -63,6 +67,7 @@ func init() {
 		mp := &multiPhase{}
 		mp.add(e2PhaseFor("C15", e2Oracles{stream: true}))
 		mp.add(e1PhaseFor(cfgC15, 1600, 24000))
+		mp.add(streamPhaseFor("C15", 4, 40))
 		register(&Property{ID: "C15", Level: "exploration",
 			Rule:   "phase 1: every interleaving of scripted writers (single/two-block, rolled back, inserting, deleting) at the lock-free yield points; the recording logger (called inside the latch) must see, per committed transaction, exactly one commit per block it changed, nothing for rolled-back ones, non-zero distinct IDs, strictly increasing per block in arrival order, and the real commit.Channel must deliver the same (ID, block) sequence; phase 2: seeded single-writer histories (single/multi-block, read-only, rolled back, failing inserts) with the same exactly-once oracle per transaction; distinct = distinct schedule traces / history hashes",
 			Assume: concAssume, Plan: mp.Plan, Run: mp.Run, MinEvents: map[string]int64{"schedules_executed": 500, "commits_observed": 2000}})
